@@ -44,7 +44,7 @@ def gen_case(seed, idx):
                                data=val(rng, typ, (n * stride,)).tolist())
         consts = {}
         for k in range(int(rng.integers(0, 3))):
-            ln = int(rng.integers(1, 10))
+            ln = int(rng.integers(1, 10)) if rng.random() < 0.8 else 0
             consts['c%d' % k] = val(rng, 'double', (ln,)).tolist()
         tags = rng.choice([0, 0, 0, 1, 2], size=n).tolist() \
             if rng.random() < 0.5 else [0] * n
@@ -314,7 +314,7 @@ def run(tier):
         PROP, tier, 'exploration', m, v, T,
         rule='case = 1-3 ParticleArrays (0-30 particles, 0-4 extra properties '
              'of 5 C types with strides 1/2/3/9 and non-zero defaults, 0-2 '
-             'constants of length 1-9, mixed tags, output list default / '
+             'constants of length 0-9, mixed tags, output list default / '
              'subset / empty / all) + solver data as Python or numpy scalars; '
              'each case is round-tripped through all 16 (format, compress, '
              'detailed, only_real) combinations and a version-1 npz file; '
